@@ -664,7 +664,17 @@ fn check_has() -> (Vec<Fail>, u64, u64) {
 // (e) take_while_p
 // =================================================================================================
 const PREDS: [&str; 4] = ["x==0", "x!=2", "true", "false"];
-const MODES: [&str; 4] = ["next-loop", "fold", "collect", "peeked-then-next-loop"];
+const MODES: [&str; 8] = [
+    "next-loop",
+    "fold",
+    "collect",
+    "peeked-then-next-loop",
+    // the same four over a source whose size_hint has lower bound 0 while items remain (a filter)
+    "next-loop inexact-size-hint",
+    "fold inexact-size-hint",
+    "collect inexact-size-hint",
+    "peeked-then-next-loop inexact-size-hint",
+];
 
 fn pred(id: usize, x: u8) -> bool {
     match id {
@@ -690,7 +700,9 @@ fn check_twp(seq: &[u8], pid: usize, mode: usize) -> Option<Fail> {
     };
     let stop = if k == seq.len() { "predicate-never-fails" } else { "predicate-fails" };
     let r = catch_unwind(AssertUnwindSafe(|| {
-        let mut pk = seq.to_vec().into_iter().peekable();
+        let src: Box<dyn Iterator<Item = u8>> = if mode >= 4 { Box::new(seq.to_vec().into_iter().filter(|_| true)) } else { Box::new(seq.to_vec().into_iter()) };
+        let mut pk = src.peekable();
+        let mode = mode % 4;
         if mode == 3 {
             let _ = pk.peek();
         }
